@@ -190,6 +190,11 @@ def match_known(pid, line, known):
         if k["property"] != pid:
             continue
         if re.search(k["match"], line):
+            if "max_ulps" in k:
+                from ulps import excess_ulps
+                e = excess_ulps(line)
+                if e is None or e > k["max_ulps"]:
+                    continue
             return k
     return None
 
